@@ -11,6 +11,8 @@
 // context-free pieces passes through; (3) representation twins of the value (same code units through 10-17 other
 // constructors) are built and a battery of 43 script-level and 19 Go-level observations must not tell any pair apart,
 // the Go export must equal the documented UTF-8 mapping; (4) order of distinct values = code-unit order.
+// (5) first-touch matrix (firsttouch.go): every binary operation x {both operands never-touched imported Go strings, left
+// only, right only} as the first operation on fresh values, operand pairs aimed at UTF-8-order vs UTF-16-order traps.
 // VerifRepr only records which representation pairs were exercised; VerifStringWellFormed failing only counts (the
 // canonical twin is in every battery anyway).
 package c06
@@ -73,6 +75,9 @@ func Check() *core.Check {
 }
 
 func signature(v *violation, t *node) string {
+	if v.witness != "" {
+		return v.monitor + "|" + v.item + "|" + v.witness
+	}
 	return v.monitor + "|" + v.item + "|" + t.render()
 }
 
@@ -186,7 +191,7 @@ func run(c *core.Ctx) core.Result {
 	}
 	v := out.viol
 	min := tree
-	if c.Index >= 0 && minimisedInThisWorker < 40 {
+	if c.Index >= 0 && minimisedInThisWorker < 40 && v.witness == "" {
 		minimisedInThisWorker++
 		m := minimise(tree, salt, v, 200, false)
 		if o2 := execute(m.clone(), core.NewStats(), salt, false); o2.viol != nil && o2.viol.monitor == v.monitor && o2.viol.item == v.item {
